@@ -37,6 +37,15 @@ CHECKS = {
              "Compiled scanners with rejecting actions (REJECT and yyreject() spellings, 4 back ends) are compared event by event with "
              "the specification's walk and with the walk over the emitted yy_acclist.",
         design="DESIGN.md section 6 C07", technique="machine-checked proof (Rocq) + lock-step on emitted yy_acclist + differential event streams"),
+    "C03": dict(
+        text="Rocq theorems about the window machine (the control flow of refills, coq/Window.v): C03_scan_independent_of_chunking and "
+             "C03_tokens_independent_of_chunking (for EVERY way of cutting the input into chunks the match loop with refills and the "
+             "whole token stream equal those over the concatenation) and C03_no_request_once_stopped (a chunk is requested only while "
+             "the loop has not stopped on everything obtained so far). Compiled scanners (4 back ends, buffer sizes 1..64, read "
+             "schedules, FILE / yy_scan_string / yy_scan_bytes / yy_scan_buffer) are judged by the proved validator, and the "
+             "interleaving of their read requests with tokens is compared with the extracted window machine on the chunks really "
+             "delivered. Partial: the buffer address arithmetic (R4b) is tied by correspondence only.",
+        design="DESIGN.md section 6 C03", technique="machine-checked proof (Rocq) of the refill control flow + proved validator + differential request/token streams"),
     "C04": dict(
         text="Rocq theorems: C04_all_bytes_incl_nul (the match-loop theorem with the lock-step premise checked over all 256 byte values, "
              "NUL taken through YY_NUL_EC / yy_NUL_trans as the skeleton does) and C04_seven_bit_eight_bit_agree (for every pattern, "
